@@ -566,33 +566,41 @@ var NilEquivalentHits int
 // Equal is the equality of the round-trip statement: exported fields only, nil == empty for
 // slices and maps, floats equal when == or both NaN.  diff describes the first difference.
 func Equal(a, b reflect.Value) (ok bool, diff string) {
-	return eq(a, b, "")
+	return eq(a, b, "", false)
 }
 
-func eq(a, b reflect.Value, path string) (bool, string) {
+// EqualSign is Equal with -0 and +0 told apart: what the wire format carries (a fixed-width
+// float) has a sign, and the library writes a -0 explicitly.
+func EqualSign(a, b reflect.Value) (ok bool, diff string) {
+	return eq(a, b, "", true)
+}
+
+func eq(a, b reflect.Value, path string, sign bool) (bool, string) {
 	if a.Type() != b.Type() {
 		return false, path + ": types differ"
 	}
 	switch a.Kind() {
 	case reflect.Float32, reflect.Float64:
 		x, y := a.Float(), b.Float()
-		if x == y || (x != x && y != y) {
+		// the same number with the same sign (-0 is not +0: the wire format carries it), or
+		// both NaN
+		if (x == y && (!sign || math.Signbit(x) == math.Signbit(y))) || (x != x && y != y) {
 			return true, ""
 		}
-		return false, fmt.Sprintf("%s: %v != %v", path, x, y)
+		return false, fmt.Sprintf("%s: %v != %v (sign bit %v / %v)", path, x, y, math.Signbit(x), math.Signbit(y))
 	case reflect.Slice:
 		if a.Len() != b.Len() {
 			return false, fmt.Sprintf("%s: len %d != %d", path, a.Len(), b.Len())
 		}
 		for i := 0; i < a.Len(); i++ {
-			if ok, d := eq(a.Index(i), b.Index(i), fmt.Sprintf("%s[%d]", path, i)); !ok {
+			if ok, d := eq(a.Index(i), b.Index(i), fmt.Sprintf("%s[%d]", path, i), sign); !ok {
 				return false, d
 			}
 		}
 		return true, ""
 	case reflect.Array:
 		for i := 0; i < a.Len(); i++ {
-			if ok, d := eq(a.Index(i), b.Index(i), fmt.Sprintf("%s[%d]", path, i)); !ok {
+			if ok, d := eq(a.Index(i), b.Index(i), fmt.Sprintf("%s[%d]", path, i), sign); !ok {
 				return false, d
 			}
 		}
@@ -607,7 +615,7 @@ func eq(a, b reflect.Value, path string) (bool, string) {
 			if !bv.IsValid() {
 				return false, fmt.Sprintf("%s: key %v missing", path, it.Key())
 			}
-			if ok, d := eq(it.Value(), bv, fmt.Sprintf("%s[%v]", path, it.Key())); !ok {
+			if ok, d := eq(it.Value(), bv, fmt.Sprintf("%s[%v]", path, it.Key()), sign); !ok {
 				return false, d
 			}
 		}
@@ -623,13 +631,13 @@ func eq(a, b reflect.Value, path string) (bool, string) {
 		if a.IsNil() {
 			return true, ""
 		}
-		return eq(a.Elem(), b.Elem(), path+"*")
+		return eq(a.Elem(), b.Elem(), path+"*", sign)
 	case reflect.Struct:
 		for i := 0; i < a.NumField(); i++ {
 			if !a.Type().Field(i).IsExported() {
 				continue
 			}
-			if ok, d := eq(a.Field(i), b.Field(i), path+"."+a.Type().Field(i).Name); !ok {
+			if ok, d := eq(a.Field(i), b.Field(i), path+"."+a.Type().Field(i).Name, sign); !ok {
 				return false, d
 			}
 		}
